@@ -105,3 +105,40 @@ REGISTRY.update({
         "note": _NOTE + "Resolution kept <= 200 per axis (cost bound); histories are JSON op lists interpreted step by step rather than a Hypothesis RuleBasedStateMachine so that the replay file is the history itself.",
     },
 })
+
+HOOK_COMMITS.append("fe000e8")
+
+REGISTRY.update({
+    "C03": {
+        "level": "For every generated diagram (1..14 bars; lattice ties, touching / nested / overlapping bars, residual collisions, ulp-perturbed and float "
+                 "coordinates, 13 scales, any input order, trailing infinite bar, hom_deg) the returned piecewise-linear functions are compared with the "
+                 "k-th-largest-tent definition on a finite set that decides equality everywhere (all candidate breakpoints, returned abscissae, midpoints, "
+                 "outside points), together with well-formedness (ordered abscissae, vanishing ends, depth count). Disagreements are attributed to the one "
+                 "listed open finding only when the guarded hook reports that the repeated-bar shortcut fired; anything else is a violation.",
+        "technique": "property-based testing (Hypothesis) against the mathematical definition, decided exactly per input; hook-based attribution of a known finding",
+        "note": _NOTE + "A different defect that only shows on inputs where the shortcut also fires would be attributed to the known finding (stated limit).",
+    },
+    "C08": {
+        "level": "Generated diagrams and covering grids (2..200 steps; tight / padded / default; endpoints on, off and half-way between nodes; infinite bars): "
+                 "every sampled value is compared with the true landscape (half-step bound, exact on-grid), vectorize with the interpolated exact landscape "
+                 "and the true one, the transformer with the approximate class element by element, the death vector by multiset + order.",
+        "technique": "property-based testing (Hypothesis) against the mathematical definition with the stated error bound; differential between the two classes",
+        "note": _NOTE + "The snapping rule itself is not prescribed (only the bound); agreement with a snapped-bar model is reported as a label, not required.",
+    },
+    "C09": {
+        "level": "Model-based histories over a pool of shared operands: every operation is mirrored in an independent pointwise model (expression tree over "
+                 "leaf functions for exact landscapes, sample arrays for grid landscapes); after every step every pool entry - operands and results alike - "
+                 "is compared with its model (exactly, on all breakpoints + midpoints for exact landscapes) and with a deep snapshot taken at creation; "
+                 "re-sampling is checked against a hand-written linear interpolation, combinations against the combination of re-sampled values; the "
+                 "documented rejections (division by zero, mismatched degree / grid) must raise ValueError.",
+        "technique": "model-based / stateful property testing (generated operation histories, invariant after every step) + stateless pair clause",
+        "note": _NOTE + "Histories are JSON op lists interpreted step by step (replay file = the history). Pool capped at 15 entries per history.",
+    },
+    "C10": {
+        "level": "Norms of generated landscapes (sign changes at and between breakpoints, flat and nearly flat segments, differences of diagram landscapes, "
+                 "grid landscapes) are compared with a closed-form reference integral self-checked against adaptive quadrature; result must be a finite "
+                 "real; homogeneity, (reverse) triangle inequality, ||P-P|| = 0 and the sup-norm stability bound against an independent bottleneck reference.",
+        "technique": "property-based testing (Hypothesis) against a reference integral (differential) + norm laws (metamorphic) + stability inequality",
+        "note": _NOTE + "Ordinates below 1e-3 in magnitude and abscissa spacings below 1e-6 are not generated (underflow / overflow of y**(p+1) and slopes is outside the statement).",
+    },
+})
